@@ -12,9 +12,10 @@ import (
 )
 
 type witScen struct {
-	PC string `json:"pc"`
-	P1 string `json:"p1"`
-	P2 string `json:"p2"`
+	Kind string `json:"kind"`
+	PC   string `json:"pc"`
+	P1   string `json:"p1"`
+	P2   string `json:"p2"`
 }
 
 func wrapLine(pl, indent string) string {
@@ -61,8 +62,13 @@ func cmdWitness(args []string) {
 	b := hx.NewBatch(*work)
 	b.WriteGoMod()
 	var src strings.Builder
-	src.WriteString("package p\n\nimport \"errors\"\n\ntype Inner struct{ V string }\ntype Inner2 struct{ V int }\ntype S1 struct{ I Inner }\ntype T1 struct{ I Inner2 }\ntype S2 struct{ J Inner }\ntype T2 struct{ J Inner2 }\n\nfunc Atoi(s string) (int, error) { return 0, errors.New(\"boom\") }\n")
+	src.WriteString("package p\n\nimport \"errors\"\n\ntype Inner struct{ V string }\ntype Inner2 struct{ V int }\ntype S1 struct{ I Inner }\ntype T1 struct{ I Inner2 }\ntype S2 struct{ J Inner }\ntype T2 struct{ J Inner2 }\ntype S3 struct{ K string }\ntype T3 struct{ K int }\n\nfunc Atoi(s string) (int, error) { return 0, errors.New(\"boom\") }\n")
 	for i, s := range scens {
+		if s.Kind == "direct" {
+			fmt.Fprintf(&src, "\n// goverter:converter\n// goverter:extend Atoi\n%s// goverter:output:file ../gen/c%d.go\n// goverter:output:package %s/gen\ntype C%d interface {\n%s\tM1(source S3) (T3, error)\n}\n",
+				wrapLine(s.PC, ""), i, b.Mod, i, wrapLine(s.P1, "\t"))
+			continue
+		}
 		fmt.Fprintf(&src, "\n// goverter:converter\n// goverter:extend Atoi\n%s// goverter:output:file ../gen/c%d.go\n// goverter:output:package %s/gen\ntype C%d interface {\n%s\tM1(source S1) (T1, error)\n%s\tM2(source S2) (T2, error)\n}\n",
 			wrapLine(s.PC, ""), i, b.Mod, i, wrapLine(s.P1, "\t"), wrapLine(s.P2, "\t"))
 	}
@@ -77,13 +83,17 @@ func cmdWitness(args []string) {
 	inner := stv(map[string]any{"k": "b", "tok": "a"})
 	for i, o := range outs {
 		for m := 1; m <= 2; m++ {
-			if o.Gen == "ok" {
+			if o.Gen == "ok" && !(m == 2 && scens[i].Kind == "direct") {
 				if m == 1 {
 					b.WriteOutputs(i, o.Files)
 				}
 				b.OK[2*i+m-1] = true
 				b.Reg[2*i+m-1] = fmt.Sprintf("reflect.ValueOf((&gen.C%dImpl{}).M%d)", i, m)
-				w.Write(map[string]any{"ins": []any{}, "calls": []any{map[string]any{"args": []any{stv(inner)}, "dump": []int{}}}})
+				var arg any = stv(inner)
+				if scens[i].Kind == "direct" {
+					arg = inner
+				}
+				w.Write(map[string]any{"ins": []any{}, "calls": []any{map[string]any{"args": []any{arg}, "dump": []int{}}}})
 			} else {
 				w.Write(map[string]any{"ins": []any{}})
 			}
@@ -108,7 +118,10 @@ func cmdWitness(args []string) {
 		}
 		_, badc := b.BadComp[i]
 		imps, decls := hx.DescribeFiles(o.Files, map[string]string{b.Mod + "/p": "user"})
-		obs.Write(map[string]any{"id": i, "pc": scens[i].PC, "p1": scens[i].P1, "p2": scens[i].P2, "gen": o.Gen, "why": why, "compiles": !badc,
+		if scens[i].Kind == "direct" {
+			msg[2*i+1] = "" // M2 of a direct program is only there to keep the registry shape; it is not judged
+		}
+		obs.Write(map[string]any{"id": i, "kind": scens[i].Kind, "pc": scens[i].PC, "p1": scens[i].P1, "p2": scens[i].P2, "gen": o.Gen, "why": why, "compiles": !badc,
 			"chain1": chainOf(msg[2*i]), "chain2": chainOf(msg[2*i+1]), "msg1": msg[2*i], "imports": imps, "decls": decls, "diag": firstLine(o.Why)})
 	}
 	js, _ := json.Marshal(map[string]any{"scenarios": len(scens), "executions": len(recs), "gen_s": b.Timing["gen"].Seconds(), "build_s": b.Timing["build"].Seconds()})
